@@ -1,9 +1,11 @@
 package core
 
 import (
+	"fmt"
 	"go/constant"
 	"go/token"
 	"go/types"
+	"os"
 
 	"golang.org/x/tools/go/ssa"
 )
@@ -33,6 +35,15 @@ type Valuation struct {
 	// RootStop, when set, ends Root/RootF at the first value it accepts (a
 	// value the rule has a snapshot of and does not want followed further).
 	RootStop func(v ssa.Value) bool
+	// PhiHook, when set, is called for every phi when its block is entered,
+	// with the incoming value of the edge taken, while the state of the
+	// previous block (and iteration) is still in force: the place to take a
+	// snapshot of what the incoming value stands for.
+	PhiHook func(phi *ssa.Phi, incoming ssa.Value)
+	// Len, when set, gives the length of a slice value the walk did not see
+	// being built (a parameter, the result of a call): the base case of
+	// BuiltLen.
+	Len func(root ssa.Value) (int64, bool)
 
 	cur *wframe
 	// bind remembers, for every parameter of an entered callee, the argument
@@ -54,6 +65,7 @@ type wframe struct {
 	phiInt  map[*ssa.Phi]int64
 	phiBool map[*ssa.Phi]bool
 	phiVal  map[*ssa.Phi]ssa.Value
+	phiLen  map[*ssa.Phi]int64 // slice-typed phis: the length of the list built so far
 	callRes map[*ssa.Call][]wres
 	// a closure body entered with concrete integer arguments (library
 	// functions that call back, e.g. sort.Search): the parameters' values and
@@ -76,7 +88,7 @@ type wres struct {
 }
 
 func newFrame(fn *ssa.Function, caller *wframe, args []ssa.Value) *wframe {
-	return &wframe{fn: fn, caller: caller, args: args, phiInt: map[*ssa.Phi]int64{}, phiBool: map[*ssa.Phi]bool{}, phiVal: map[*ssa.Phi]ssa.Value{}, callRes: map[*ssa.Call][]wres{}}
+	return &wframe{fn: fn, caller: caller, args: args, phiInt: map[*ssa.Phi]int64{}, phiBool: map[*ssa.Phi]bool{}, phiVal: map[*ssa.Phi]ssa.Value{}, phiLen: map[*ssa.Phi]int64{}, callRes: map[*ssa.Call][]wres{}}
 }
 
 // WalkResult is the end of a concrete walk.
@@ -305,11 +317,15 @@ func (val *Valuation) evalInt(f *wframe, v ssa.Value, phi map[*ssa.Phi]ssa.Value
 	case *ssa.Call:
 		// len of a static table
 		if bi, ok := x.Call.Value.(*ssa.Builtin); ok && bi.Name() == "len" && f != nil {
-			base, _ := val.rootIn(f, x.Call.Args[0])
+			base, bf := val.rootIn(f, x.Call.Args[0])
 			if g := GlobalOfLoad(base); g != nil {
 				if t := StaticTableOf(g); t != nil {
 					return int64(len(t.Elems)), true
 				}
+			}
+			// len of a list built on this path: nil, make, append of single elements
+			if n, ok := val.builtLen(bf, base, 0); ok {
+				return n, true
 			}
 		}
 		if f != nil {
@@ -546,10 +562,16 @@ func (val *Valuation) staticLookup(f *wframe, lk *ssa.Lookup) (e StaticElem, hit
 func (val *Valuation) staticElem(f *wframe, ia *ssa.IndexAddr) (StaticElem, bool) {
 	base, bf := val.rootIn(f, ia.X)
 	g := GlobalOfLoad(base)
+	if gg, isG := base.(*ssa.Global); isG {
+		g = gg // an array variable indexed in place
+	}
 	if g == nil {
 		return StaticElem{}, false
 	}
 	t := StaticTableOf(g)
+	if os.Getenv("MLTLINT_DEBUG") == "static" {
+		fmt.Fprintf(os.Stderr, "static: %s table=%v\n", g.Name(), t != nil)
+	}
 	if t == nil || t.IsMap {
 		return StaticElem{}, false
 	}
@@ -617,7 +639,16 @@ func (val *Valuation) staticField(f *wframe, sv ssa.Value, fld *types.Var) (ssa.
 // constant, or a value that cannot be nil (a fresh error, an allocation, a
 // value boxed into an interface)?
 func (val *Valuation) nilness(f *wframe, v ssa.Value) (isNil, known bool) {
-	r, _ := val.rootIn(f, v)
+	r, rf := val.rootIn(f, v)
+	r = Unwrap(r)
+	// an element of a static table that the literal leaves out is the zero value
+	if ld, ok := r.(*ssa.UnOp); ok && ld.Op == token.MUL {
+		if ia, ok := ld.X.(*ssa.IndexAddr); ok {
+			if e, ok := val.staticElem(rf, ia); ok && e.Val == nil && e.Fields == nil {
+				return true, true
+			}
+		}
+	}
 	switch x := r.(type) {
 	case *ssa.Const:
 		if x.Value == nil {
@@ -675,6 +706,7 @@ func (val *Valuation) walkFrame(f *wframe, start, from *ssa.BasicBlock, depth in
 			}
 		}
 		newVal := map[*ssa.Phi]ssa.Value{}
+		newLen := map[*ssa.Phi]int64{}
 		for _, ph := range phis {
 			for i, p := range cur.Preds {
 				if p == prev {
@@ -686,12 +718,26 @@ func (val *Valuation) walkFrame(f *wframe, start, from *ssa.BasicBlock, depth in
 						}
 					}
 					newVal[ph] = e
+					if _, isSl := ph.Type().Underlying().(*types.Slice); isSl {
+						if n, ok := val.builtLen(f, e, 0); ok {
+							newLen[ph] = n
+						}
+					}
+					if val.PhiHook != nil {
+						val.cur = f
+						val.PhiHook(ph, e)
+					}
 				}
 			}
 		}
 		for _, ph := range phis {
 			if e, ok := newVal[ph]; ok {
 				f.phiVal[ph] = e
+			}
+			if n, ok := newLen[ph]; ok {
+				f.phiLen[ph] = n
+			} else {
+				delete(f.phiLen, ph)
 			}
 			if n, ok := newInt[ph]; ok {
 				f.phiInt[ph] = n
@@ -905,3 +951,87 @@ func wrapToType(n int64, t types.Type) int64 {
 	}
 	return n
 }
+
+// builtLen: the length of a slice value that was built on the walked path
+// from nil / make(len) by appending (the phis on the way are resolved).
+func (val *Valuation) builtLen(f *wframe, v ssa.Value, depth int) (int64, bool) {
+	if depth > 64 || v == nil {
+		return 0, false
+	}
+	for steps := 0; steps < 32 && f != nil; steps++ {
+		v = Unwrap(v)
+		if ph, ok := v.(*ssa.Phi); ok {
+			if n, has := f.phiLen[ph]; has {
+				return n, true
+			}
+			if in, has := f.phiVal[ph]; has && in != ssa.Value(ph) {
+				v = in
+				continue
+			}
+			return 0, false
+		}
+		if p, ok := v.(*ssa.Parameter); ok && f.caller != nil && p.Parent() == f.fn {
+			moved := false
+			for i, q := range f.fn.Params {
+				if q == p && i < len(f.args) {
+					v, f, moved = f.args[i], f.caller, true
+				}
+			}
+			if moved {
+				continue
+			}
+		}
+		break
+	}
+	switch x := v.(type) {
+	case *ssa.Const:
+		if x.IsNil() {
+			return 0, true
+		}
+	case *ssa.MakeSlice:
+		return val.evalInt(f, x.Len, nil, depth+1)
+	case *ssa.Slice:
+		// t[:] of a fresh array (the variadic arguments of a call)
+		if al, ok := x.X.(*ssa.Alloc); ok && x.Low == nil && x.High == nil {
+			if arr, ok := al.Type().(*types.Pointer).Elem().Underlying().(*types.Array); ok {
+				return arr.Len(), true
+			}
+		}
+		// x[lo:hi] of a list of known length
+		if _, isSl := x.X.Type().Underlying().(*types.Slice); isSl {
+			n, ok := val.builtLen(f, x.X, depth+1)
+			if !ok {
+				return 0, false
+			}
+			lo, hi := int64(0), n
+			if x.Low != nil {
+				if lo, ok = val.evalInt(f, x.Low, nil, depth+1); !ok {
+					return 0, false
+				}
+			}
+			if x.High != nil {
+				if hi, ok = val.evalInt(f, x.High, nil, depth+1); !ok {
+					return 0, false
+				}
+			}
+			return hi - lo, true
+		}
+	case *ssa.Call:
+		if bi, ok := x.Call.Value.(*ssa.Builtin); ok && bi.Name() == "append" && len(x.Call.Args) == 2 {
+			a, ok1 := val.builtLen(f, x.Call.Args[0], depth+1)
+			b, ok2 := val.builtLen(f, x.Call.Args[1], depth+1)
+			return a + b, ok1 && ok2
+		}
+	}
+	if val.Len != nil {
+		save := val.cur
+		val.cur = f
+		n, ok := val.Len(v)
+		val.cur = save
+		return n, ok
+	}
+	return 0, false
+}
+
+// BuiltLen: the length of slice value v at this point of the walk (see Len).
+func (val *Valuation) BuiltLen(v ssa.Value) (int64, bool) { return val.builtLen(val.cur, v, 0) }
